@@ -36,6 +36,12 @@ CLAIMS = {
             'For each template and syntax of the HTML writer: format on (any inlineBreak, leaf formatting, formatSkip/Force choices) '
             'equals format off after deleting sentinel whitespace; indentation after every newline equals the open-element depth; '
             'comments add only comment text; self-closing styles differ only before `>`.', '§3 C12'),
+    'C13': ('bounded symbolic execution (CrossHair/z3): inductive step of each OutputStream operation from a symbolic pre-state, and '
+            'expand() templates with recording output.text/output.field callbacks',
+            'Step lemmas: from ANY integer offset/line/column every OutputStream operation hands its callbacks exactly the position '
+            'where their returned text lands and leaves a consistent state (covers runs of any length by induction). End to end: '
+            'for each template x syntax, tabstops are numbered 1,2,3.. in document order without collisions and every callback '
+            'position equals the prefix sum of the text returned before it.', '§3 C13'),
     'C11': ('bounded symbolic execution (CrossHair/z3) of the real extract_abbreviation over all short lines x all integer carets x '
             'option sets, plus templates with concrete valid abbreviations and symbolic left/right context',
             'Consistency clauses: path tree of the real extractor exhausted for every ASCII line up to the stated length, every '
